@@ -8,7 +8,7 @@ pending-work tests (T3); the decoder's hint is `expected` (+ a block header only
 block follows, never for a skippable frame) and 0 only when the frame is decoded and
 flushed (T3); the recommended buffer sizes are the documented expressions (T7)."""
 from ..facts import extract, Broken
-from ..ir import Program, walk, is_call, strip_casts, const_val
+from ..ir import Program, walk, is_call, strip_casts, const_val, access_path
 from ..report import Result
 from ..rules import guards, reset
 from ..rules.guards import cond_edges
@@ -321,6 +321,32 @@ def checksum_presence_governs_consumption(prog, res):
     res.need(R, 5)
 
 
+def end_flush_input_mode(prog, res):
+    """T9: ZSTD_flushStream / ZSTD_endStream rebuild the input descriptor of the call they forward to.  With a stable input
+    buffer that descriptor must be the one recorded by the previous call — including while the frame's initialisation is
+    still pending (stage zcss_init), when `appliedParams` are NOT yet the parameters of this frame.  The helper choosing the
+    descriptor must therefore not decide on appliedParams alone: its choice depends on the stream stage and on the requested mode."""
+    R = "T9.end-flush-input-mode"
+    f = prog.fn("inBuffer_forEndFlush")
+    flat = set()
+    for _, _, r in f.roots():
+        for y in walk(r):
+            if y.get("k") == "mem" and y.get("f") == "inBufferMode":
+                flat.add(" ".join(z.get("f", "") for z in walk(y) if z.get("k") == "mem"))
+    has_applied = any("appliedParams" in t for t in flat)
+    has_requested = any("requestedParams" in t for t in flat)
+    stage = any(y.get("k") == "mem" and y.get("f") == "streamStage" for _, _, r in f.roots() for y in walk(r))
+    res.check(has_applied or has_requested, R, "reads-mode", f.loc, "the helper consults the input buffer mode", "inBuffer_forEndFlush no longer looks at the buffer mode")
+    res.check((not has_applied) or (has_requested and stage), R, "stage-aware", f.loc,
+              "appliedParams' mode is only used once the stream left its init stage; before that the requested mode decides",
+              "inBuffer_forEndFlush decides on appliedParams.inBufferMode alone: while the frame's initialisation is pending these are the previous frame's "
+              "parameters, a stable-input stream is flushed/ended with an empty input and the bytes already reported as consumed are dropped")
+    for name in ("ZSTD_flushStream", "ZSTD_endStream"):
+        g = prog.fn(name)
+        res.check("inBuffer_forEndFlush" in g.callees(), R, name, g.loc, "input descriptor comes from the shared helper", "%s builds its own input descriptor" % name)
+    res.need(R, 4)
+
+
 def run(tier):
     res = Result("C10", tier)
     tus, info = extract(["compress", "decompress", "common"])
@@ -332,6 +358,7 @@ def run(tier):
     decoder_hints(prog, res)
     staging_buffer(prog, res)
     checksum_presence_governs_consumption(prog, res)
+    end_flush_input_mode(prog, res)
     sizes(prog, res)
     return res.finish(
         explanation="The two streaming state machines cannot take a loop iteration that neither stops, changes stage nor "
